@@ -33,7 +33,7 @@ META = {
 }
 SIZES = {"quick": dict(merges=40000, hyp=600, scenarios=32, mshards=6), "thorough": dict(merges=1500000, hyp=20000, scenarios=600, mshards=14)}
 
-SCALARS = [None, True, False, 0, 1, -7, 3.5, "", "x", "DE", [1, 2], [], [{"a": 1}], "positions"]
+SCALARS = [None, True, False, 0, 1, 1.0, 0.0, -7, 3.5, "", "x", "DE", [1, 2], [1.0, 2], [True, 2], [], [{"a": 1}], [{"a": True}], "positions", 16, 16.0]
 KEYS = ["a", "b", "c", "positions", "bank_code", "DE", "FR", "x", "in_sepa_zone", ""]
 
 
@@ -207,10 +207,20 @@ def plan(tier, seed):
         root = scenario.make_scratch(ov)
         sh.append({"kind": "scenario", "tier": tier, "scenario": f"{k}:{kind}", "files": sorted(ov), "affected": aff,
                    "_env": {"SCHWIFTY_REPO": root}, "_scratch": root, "_name": f"scn-{k}"})
+    for which, rel, content in (("bank", "bank_registry/house.json", [bank_entry("DE", "99999999", "HOUSDEFFXXX", "House Bank", True)]),
+                                ("iban", "iban_registry/local.json", {"DE": {"in_sepa_zone": True}})):
+        root = scenario.make_scratch({rel: content})
+        sh.append({"kind": "retry", "tier": tier, "which": which, "broken_file": rel, "content": content, "_prelude": False,
+                   "_env": {"SCHWIFTY_REPO": root}, "_scratch": root, "_name": f"retry-{which}"})
     return sh
 
 
 def prepare_replay(shard):
+    if shard.get("kind") == "retry":
+        root = scenario.make_scratch({shard["broken_file"]: shard["content"]})
+        shard["_env"] = {"SCHWIFTY_REPO": root}
+        shard["_scratch"] = root
+        return shard
     if shard.get("kind") != "scenario" or ":" not in str(shard.get("scenario")):
         return shard
     k = int(str(shard["scenario"]).split(":")[0])
@@ -219,6 +229,13 @@ def prepare_replay(shard):
     shard["_env"] = {"SCHWIFTY_REPO": root}
     shard["_scratch"] = root
     return shard
+
+
+def strict(x):
+    """Canonical JSON text: 1, 1.0 and true are different values (Python's == does not tell them apart)."""
+    import json  # noqa: PLC0415
+
+    return json.dumps(x, sort_keys=True, default=repr)
 
 
 def run_merge(shard, mon):
@@ -237,7 +254,7 @@ def run_merge(shard, mon):
         if not o.ok:
             mon.viol(f"merge_raised:{o.exc_name}", w, want, o.brief())
             return
-        if o.value != want:
+        if strict(o.value) != strict(want):
             mon.viol("merge_result_wrong", w, want, o.value)
         if left != l0 or right != r0:
             mon.viol("merge_modified_its_arguments", w, [l0, r0], [left, right])
@@ -270,6 +287,58 @@ def run_merge(shard, mon):
     mon.sample({"left": {"a": {"b": 1}, "c": 2}, "right": {"a": {"b": {"x": 1}}, "d": [1]}})
 
 
+def run_retry(shard, mon):
+    """A registry file is unreadable at the first import attempt, gets repaired, the import is retried in the
+    same process: the effective data must then be the composition of all (now valid) files."""
+    import importlib  # noqa: PLC0415
+    import json as js  # noqa: PLC0415
+    import os  # noqa: PLC0415
+    import sys  # noqa: PLC0415
+
+    pkg = env.PKG
+    mon.ev()
+    mon.distinct(("retry", shard["which"]))
+    path = os.path.join(pkg, shard["broken_file"])
+    good = shard["content"]
+    with open(path, "w", encoding="utf-8") as fp:
+        fp.write(js.dumps(good)[: len(js.dumps(good)) // 2])  # truncated JSON
+    if env.REPO in sys.path:
+        sys.path.remove(env.REPO)
+    sys.path.insert(0, env.REPO)
+    failures = 0
+    for attempt in range(2):
+        try:
+            importlib.import_module("schwifty")
+            break
+        except Exception:  # noqa: BLE001
+            failures += 1
+            for name in [n for n in sys.modules if n == "schwifty" or n.startswith("schwifty.")]:
+                if name not in ("schwifty.registry", "schwifty.exceptions", "schwifty.domain", "schwifty.common"):
+                    # what a retrying application sees: modules that were imported successfully stay imported
+                    del sys.modules[name]
+            with open(path, "w", encoding="utf-8") as fp:
+                js.dump(good, fp)
+    mon.tally("import_failures_before_success", failures)
+    if failures != 1:
+        mon.inconclusive.append(f"retry scenario did not fail exactly once ({failures})")
+        return
+    S = judge.lib()
+    from schwifty import registry  # noqa: PLC0415
+
+    data._cache.clear()
+    table, banks = data.countries(), data.banks()
+    eff = {k: {kk: vv for kk, vv in v.items() if kk != "regex"} for k, v in registry.get("iban").items()}
+    w = {"scenario": "retry-import:" + shard["which"], "broken_file": shard["broken_file"]}
+    if strict(eff) != strict(table):
+        diff = sorted(k for k in set(eff) | set(table) if eff.get(k) != table.get(k))[:6]
+        mon.viol("effective_country_table_differs_after_retried_import", {**w, "countries": diff}, "composition of all files", f"{len(eff)} countries, differing: {diff}")
+    if strict(registry.get("bank")) != strict(banks):
+        mon.viol("effective_bank_list_differs_after_retried_import", w, len(banks), len(registry.get("bank")))
+    for text in ("DE89370400440532013000", "AO06004400006729503010102", "AL47212110090000000235698741"):
+        judge.judge_iban_accept(mon, text, table, "retry")
+    mon.tally("scenarios_loaded")
+
+
 def run_scenario(shard, mon, S):
     from schwifty import registry  # noqa: PLC0415
     from vf.props import c08, c12  # noqa: PLC0415
@@ -281,12 +350,12 @@ def run_scenario(shard, mon, S):
     mon.distinct(("scenario", scn))
     w = {"scenario": scn, "files": shard.get("files")}
     eff = {k: {kk: vv for kk, vv in v.items() if kk != "regex"} for k, v in registry.get("iban").items()}
-    if eff != table:
+    if strict(eff) != strict(table):
         diff = sorted(k for k in set(eff) | set(table) if eff.get(k) != table.get(k))[:6]
         ex = diff[0] if diff else None
         mon.viol("effective_country_table_differs", {**w, "countries": diff}, table.get(ex), eff.get(ex))
     lib_banks = registry.get("bank")
-    if lib_banks != banks:
+    if strict(lib_banks) != strict(banks):
         if sorted(map(repr, lib_banks)) == sorted(map(repr, banks)):
             mon.viol("effective_bank_list_order_differs", w, "file-name order", "same entries, other order")
         else:
@@ -325,6 +394,9 @@ def run_scenario(shard, mon, S):
 
 def run_shard(shard, out_base):
     mon = Mon("C18")
+    if shard["kind"] == "retry":
+        run_retry(shard, mon)
+        return mon.result(out_base)
     S = judge.lib()
     if shard["kind"] == "merge":
         run_merge(shard, mon)
@@ -334,7 +406,7 @@ def run_shard(shard, out_base):
 
 
 def finish(m, tier, seed):
-    want = SIZES[tier]["scenarios"] + 1
+    want = SIZES[tier]["scenarios"] + 3
     if m["tallies"].get("scenarios_loaded", 0) < want and not m["viol_count"]:
         m["inconclusive"].append(f"only {m['tallies'].get('scenarios_loaded', 0)} of {want} scenarios loaded")
     return {"scenarios": want}
